@@ -808,7 +808,8 @@ func C02(c *sim.Ctx) {
 		perBlock = len(allTamperings)
 	}
 	tried := map[string]bool{}
-	for len(p.m.Chain) < maxBlocks {
+	// bounded: an exhausted (zero) tape must terminate too
+	for iter := 0; len(p.m.Chain) < maxBlocks && iter < 3*maxBlocks; iter++ {
 		b := p.d.next(p.m.Head())
 		// tampered variants first: none may be stored
 		if perBlock >= len(allTamperings) {
@@ -851,9 +852,9 @@ func C02(c *sim.Ctx) {
 		}
 		p.m.Chain = append(p.m.Chain, b)
 		switch t.Draw("after", 8) {
-		case 0:
+		case 6:
 			p.revert()
-		case 1:
+		case 7:
 			p.restart(0, t.Draw("restart.graceful", 2) == 1)
 		}
 	}
